@@ -1,6 +1,7 @@
 package nodesim
 
 import (
+	"os"
 	"time"
 
 	"github.com/bytom/bytom/protocol/bc"
@@ -9,3 +10,10 @@ import (
 func msDur(ms uint64) time.Duration { return time.Duration(ms) * time.Millisecond }
 
 func hs(h bc.Hash) string { return h.String() }
+
+func getenv(k, def string) string {
+	if v := os.Getenv(k); v != "" {
+		return v
+	}
+	return def
+}
